@@ -66,6 +66,9 @@ def ladder(levels, override, top):
     if override:
         parent = override
         parent_known = True
+    elif top.get('transport'):
+        parent = top['transport']
+        parent_known = True
     elif top['content'].startswith('charset:') :
         parent = top['content'][8:]
         parent_known = True
@@ -120,7 +123,14 @@ def run_chain(case, ctx):
     try:
         try:
             p = cssutils.CSSParser(fetcher=fetcher)
-            if top['delivery'] == 'text':
+            if top.get('entry') == 'parseUrl':
+                contents['http://h/main.css'] = ({'result': 'data', 'delivery': top['delivery'], 'transport': top.get('transport'), 'content': top['content']}, top_raw)
+                sheet = p.parseUrl('http://h/main.css', encoding=override)
+                log.remove('http://h/main.css')
+                if sheet is None:
+                    ctx.event('top-level-undecodable')
+                    return None
+            elif top['delivery'] == 'text':
                 sheet = p.parseString(top_raw.decode('utf-8-sig' if top['content'] == 'bom' else 'utf-8'), encoding=override, href='http://h/main.css')
             else:
                 sheet = p.parseString(top_raw, encoding=override, href='http://h/main.css')
@@ -186,7 +196,9 @@ LEVEL = st.fixed_dictionaries({
     'result': st.sampled_from(['data', 'data', 'data', 'data', 'none', 'pair-none']),
 })
 TOP = st.fixed_dictionaries({'content': st.sampled_from(['none', 'bom', 'charset:' + ENCS[5], 'charset:' + ENCS[0]]),
-                             'delivery': st.sampled_from(['bytes', 'text'])})
+                             'delivery': st.sampled_from(['bytes', 'text']), 'entry': st.sampled_from(['parseString', 'parseString', 'parseUrl']),
+                             'transport': st.sampled_from([None, None, ENCS[3]])}).map(
+    lambda t: t if t['entry'] == 'parseUrl' else {**t, 'transport': None})
 chain_strategy = st.fixed_dictionaries({
     'levels': st.lists(LEVEL, min_size=2, max_size=3),
     'override': st.sampled_from([None, None, ENCS[1], ENCS[4]]),
